@@ -495,7 +495,12 @@ where
                     new_capacity >= old_capacity,
                     "channel read buffer must not shrink while draining messages"
                 );
-                if old_capacity == new_capacity {
+                // Keep draining while the socket may still hold bytes: reading
+                // stops early when the buffer reaches its maximum size, and no
+                // new (edge-triggered) event will announce what was left behind.
+                if old_capacity == new_capacity
+                    && !(channel.interest & channel.readiness).is_readable()
+                {
                     return messages;
                 }
             }
